@@ -1,10 +1,180 @@
 import Ldap3V.Driver.Util
-namespace Ldap3V.Driver
-open Ldap3V
+import Ldap3V.Spec.ConnSetup
+/-
+Line-protocol commands of slice C18 (connection set-up):
+
+  setup.plan <scheme hex> <host hex|none> <port|none> <starttls 0|1> <timeout ms|none> <stream none|tcp|unix|invalid>
+      → canonical text of `ConnSetup.plan`
+  setup.run  <the same six> <env>
+      → canonical text of `ConnSetup.run env (plan …)`
+  spec.setup.plan / spec.setup.run: the same through `Spec.plan` (the property's decision table)
+
+<env> is `-` or a `,`-separated list describing resolver + kernel + peers as the lane set them up:
+  t:<host hex>:<port>:<id>   `TcpStream::connect("host:port")` reaches endpoint <id>   (else refused)
+  tn:<host hex>:<port>       … never completes
+  u:<path hex>:<id>          `UnixStream::connect(path)` reaches endpoint <id>         (else refused)
+  un:<path hex>              … never completes
+  p:<id>:<d|f|n>:<d|f|n>     peer behind <id>: StartTLS exchange, TLS handshake (done/fail/never; default n n)
+  pt:<id> / pu:<id>          the endpoint a pre-opened TCP / Unix stream is connected to
+-/
+namespace Ldap3V.Driver.SetupD
+open Ldap3V Ldap3V.ConnSetup
+
+def showSecure : Secure → String
+  | .none => "none"
+  | .starttls => "starttls"
+  | .tls => "tls"
+
+def showBound : Option Nat → String
+  | none => "none"
+  | some t => toString t
+
+def showErrKind : ErrKind → String
+  | .unknownScheme s => "UnknownScheme:" ++ hexOf s
+  | .emptyUnixPath => "EmptyUnixPath"
+  | .portInUnixPath => "PortInUnixPath"
+  | .mismatchedStreamType => "MismatchedStreamType"
+
+def showPlan : Plan → String
+  | .tcpConnect h p sec b => s!"tcp host={hexOf h} port={p} secure={showSecure sec} bound={showBound b}"
+  | .useTcpStream h sec b => s!"tcpstream host={hexOf h} secure={showSecure sec} bound={showBound b}"
+  | .unixConnect p b => s!"unix path={hexOf p} bound={showBound b}"
+  | .useUnixStream => "unixstream"
+  | .err k => "err " ++ showErrKind k
+  | .panic => "panic"
+
+def showContact : Contact → String
+  | .none => "none"
+  | .tcp e => s!"tcp:{e}"
+  | .unix e => s!"unix:{e}"
+
+def showRunErr : RunErr → String
+  | .setup k => showErrKind k
+  | .io => "Io"
+  | .startTls => "StartTls"
+  | .tls => "Tls"
+
+/-- what the contacted TCP peer receives first -/
+def showFirst (pl : Plan) (c : Contact) : String :=
+  match c with
+  | .tcp _ =>
+    match firstSent pl with
+    | .none => "none"
+    | .starttls => "starttls"
+    | .tls => "hello"
+  | _ => "none"
+
+def showOutcome (pl : Plan) : Outcome → String
+  | .ok c => s!"ok {showContact c} first={showFirst pl c}"
+  | .err e c => s!"err {showRunErr e} {showContact c} first={showFirst pl c}"
+  | .timeout c => s!"timeout {showContact c} first={showFirst pl c}"
+  | .hang c => s!"hang {showContact c} first={showFirst pl c}"
+  | .panic => "panic"
+
+def parseOptHex (s : String) : Option (Option Bytes) :=
+  if s == "none" then some none else (unhex s).map some
+
+def parseOptNat (s : String) : Option (Option Nat) :=
+  if s == "none" then some none else s.toNat?.map some
+
+def parseStream : String → Option (Option StreamKind)
+  | "none" => some none
+  | "tcp" => some (some .tcp)
+  | "unix" => some (some .unix)
+  | "invalid" => some (some .invalid)
+  | _ => none
+
+def parseStep : String → Option StepRes
+  | "d" => some .done
+  | "f" => some .fail
+  | "n" => some .never
+  | _ => none
+
+structure EnvTab where
+  tcp : List (Bytes × Nat × ConnRes) := []
+  unix : List (Bytes × ConnRes) := []
+  peers : List (Nat × Peer) := []
+  preTcp : Nat := 0
+  preUnix : Nat := 0
+
+def EnvTab.toEnv (t : EnvTab) : Env :=
+  { tcp := fun h p => match t.tcp.find? (fun e => e.1 == h && e.2.1 == p) with
+      | some e => e.2.2
+      | none => .refused
+    unix := fun p => match t.unix.find? (fun e => e.1 == p) with
+      | some e => e.2
+      | none => .refused
+    peer := fun i => match t.peers.find? (fun e => e.1 == i) with
+      | some e => e.2
+      | none => ⟨.never, .never⟩
+    preTcp := t.preTcp
+    preUnix := t.preUnix }
+
+def parseEnvItem (t : EnvTab) (item : String) : Option EnvTab :=
+  match item.splitOn ":" with
+  | ["t", h, p, i] => do
+    let h ← unhex h; let p ← p.toNat?; let i ← i.toNat?
+    some { t with tcp := t.tcp ++ [(h, p, .reached i)] }
+  | ["tn", h, p] => do
+    let h ← unhex h; let p ← p.toNat?
+    some { t with tcp := t.tcp ++ [(h, p, .never)] }
+  | ["u", h, i] => do
+    let h ← unhex h; let i ← i.toNat?
+    some { t with unix := t.unix ++ [(h, .reached i)] }
+  | ["un", h] => do
+    let h ← unhex h
+    some { t with unix := t.unix ++ [(h, .never)] }
+  | ["p", i, a, b] => do
+    let i ← i.toNat?; let a ← parseStep a; let b ← parseStep b
+    some { t with peers := t.peers ++ [(i, ⟨a, b⟩)] }
+  | ["pt", i] => do
+    let i ← i.toNat?
+    some { t with preTcp := i }
+  | ["pu", i] => do
+    let i ← i.toNat?
+    some { t with preUnix := i }
+  | _ => none
+
+def parseEnv (s : String) : Option Env :=
+  if s == "-" then some ({} : EnvTab).toEnv
+  else ((s.splitOn ",").foldlM parseEnvItem ({} : EnvTab)).map EnvTab.toEnv
+
+def parseInput (ws : List String) : Option (Settings × UrlParts) :=
+  match ws with
+  | [sc, h, p, st, to, sk] => do
+    let sc ← unhex sc
+    let h ← parseOptHex h
+    let p ← parseOptNat p
+    let st ← if st == "1" then some true else if st == "0" then some false else none
+    let to ← parseOptNat to
+    let sk ← parseStream sk
+    some (⟨st, to, sk⟩, ⟨sc, h, p⟩)
+  | _ => none
+
+def doPlan (f : Settings → UrlParts → Plan) (arg : String) : String :=
+  match parseInput (arg.splitOn " ") with
+  | some (s, u) => showPlan (f s u)
+  | none => "bad-request"
+
+def doRun (f : Settings → UrlParts → Plan) (arg : String) : String :=
+  match arg.splitOn " " with
+  | [a, b, c, d, e, g, envs] =>
+    match parseInput [a, b, c, d, e, g], parseEnv envs with
+    | some (s, u), some env => let pl := f s u; showOutcome pl (run env pl)
+    | _, _ => "bad-request"
+  | _ => "bad-request"
 
 /-- line-protocol handler for the `Setup` family of commands; `none` = not mine -/
 def handleSetup (cmd arg : String) : Option String :=
   match cmd with
+  | "setup.plan" => some (doPlan plan arg)
+  | "setup.run" => some (doRun plan arg)
+  | "spec.setup.plan" => some (doPlan Spec.plan arg)
+  | "spec.setup.run" => some (doRun Spec.plan arg)
   | _ => none
 
+end Ldap3V.Driver.SetupD
+
+namespace Ldap3V.Driver
+def handleSetup := SetupD.handleSetup
 end Ldap3V.Driver
